@@ -298,13 +298,13 @@ func buildModel(c *Ctx) *Model {
 			if len(r.Results) != 1 {
 				continue
 			}
-			call, ok := r.Results[0].(*ssa.Call)
-			if !ok || calleeName(call) != modPath+"/cmd/rdpgw/protocol.createPacket" {
+			t, isPkt, ok := packetTypeOf(r.Results[0], nil, 0)
+			if !isPkt {
 				continue
 			}
-			t, ok := constInt(arg(call, 0))
 			if !ok {
-				b.problem("%s passes a non-constant packet type to createPacket", f.Name())
+				// a generic packet helper (type given by its caller): not a builder by itself; a
+				// direct Tunnel.Write of its result is reported where it happens
 				continue
 			}
 			bi := &BuilderInfo{Fn: f, PktType: t, StatusIdx: -1}
@@ -921,4 +921,64 @@ func (b *modelBuilder) interesting(f *ssa.Function, seen map[*ssa.Function]bool)
 		}
 	})
 	return res
+}
+
+// packetTypeOf: v is (the result of a first-party helper that returns) createPacket(T, ...);
+// T is resolved through the helpers' parameters at the call sites on the way (bind).
+// isPkt: a createPacket call was found; ok: its type is a constant on every return.
+func packetTypeOf(v ssa.Value, bind map[*ssa.Parameter]ssa.Value, depth int) (t int64, isPkt, ok bool) {
+	call, isCall := strip(v).(*ssa.Call)
+	if !isCall || depth > 2 {
+		return 0, false, false
+	}
+	resolve := func(x ssa.Value) ssa.Value {
+		for i := 0; i < 3; i++ {
+			p, isP := strip(x).(*ssa.Parameter)
+			if !isP || bind == nil {
+				break
+			}
+			y, has := bind[p]
+			if !has {
+				break
+			}
+			x = y
+		}
+		return x
+	}
+	if calleeName(call) == modPath+"/cmd/rdpgw/protocol.createPacket" {
+		k, isC := constInt(resolve(arg(call, 0)))
+		return k, true, isC
+	}
+	callee := call.Call.StaticCallee()
+	if callee == nil || !IsFirstParty(callee) || callee.Blocks == nil {
+		return 0, false, false
+	}
+	nb := map[*ssa.Parameter]ssa.Value{}
+	for k, v := range bind {
+		nb[k] = v
+	}
+	for i, p := range callee.Params {
+		if i < len(call.Call.Args) {
+			nb[p] = resolve(call.Call.Args[i])
+		}
+	}
+	first := true
+	for _, r := range returnsOf(callee) {
+		if len(r.Results) != 1 {
+			return 0, false, false
+		}
+		rt, rp, rok := packetTypeOf(r.Results[0], nb, depth+1)
+		if !rp {
+			return 0, false, false
+		}
+		if !rok {
+			return 0, true, false
+		}
+		if first {
+			t, first = rt, false
+		} else if rt != t {
+			return 0, true, false
+		}
+	}
+	return t, !first, !first
 }
